@@ -187,6 +187,15 @@ def eval_case(c):
                     n += 1
                     if math.isnan(M.real) or math.isnan(M.imag) or M.real < 0 or M.imag < 0:
                         V('extreme-branch-nan-or-negative', f'{model}(w={w!r}, mu={mm!r}, eta={eta!r}) = {M!r}', model=model, w=w, mu=mm, eta=eta)
+            # the small-modulus branch (modulus < MIN_MODULUS = 1e-3 Pa) must continue the law: values just below and just above the
+            # switch may differ by at most the moduli involved (<= 1e-3 Pa times the Voigt modulus scale), not by a factor
+            wreg = 10 ** rng.uniform(-10, 0)
+            lo = complex(m(wreg, 1.0e-3 * (1 - 1e-9), eta))
+            hi = complex(m(wreg, 1.0e-3 * (1 + 1e-9), eta))
+            cnt['value_evaluations'] += 2
+            vscale = max([1.0] + [float(a) for a in args[:1]]) if model in ('voigt', 'burgers', 'sundberg') else 1.0
+            if abs(lo - hi) > 4e-3 * vscale + 1e-9 * abs(hi):
+                V('small-modulus-branch-discontinuous', f'{model} args={args}: modulus just below MIN_MODULUS gives {lo!r}, just above gives {hi!r} (w={wreg!r}, eta={eta!r}): the extreme-value branch does not continue the law', model=model, w=wreg, eta=eta, args=list(args))
             if model in MAXWELL_FAMILY:
                 # high-frequency ladder inside the regular branch: |M/mu - 1| must shrink and end small
                 tau = eta / mu
